@@ -164,7 +164,8 @@ func writeObject(w io.Writer, value any) error {
 	case reflect.Ptr:
 		return writeObject(w, reflect.ValueOf(value).Elem())
 	default:
-		_, err := io.WriteString(w, fmt.Sprint(value))
+		// a map is printed in Go syntax: the drops inside it are printed as their values
+		_, err := io.WriteString(w, fmt.Sprint(values.ResolveDrops(value)))
 		return err
 	}
 }
